@@ -106,13 +106,13 @@ REGISTRY = {
     },
     "C10": {
         "level": "exploration",
-        "claim": "Concurrent API programs (Open blocking/background, Close, sends, UpdateConfigOptions valid/invalid, State, Metrics) from 1-5 goroutines at drawn offsets over 1-3 open/close cycles against peers that are absent, select, stay silent, drop or flap, both roles, in real time with small timers; every call is bounded, Close is bounded and idempotent, after Close no goroutine runs library code, every socket/listener handed to the library is closed, no dial/listen follows, State() is NotConnected; a re-Open reaches Selected, a second Open is refused with ErrAlreadyOpen without side effects, and a round trip works.",
-        "trust": "Real time: bounds are upper bounds with seconds of slack and leak detectors poll for 2 s; HSMS-SS only (SECS-I lifecycle is covered by C17/C18 set-up and tear-down, not enumerated here); handlers return (as the statement assumes).",
+        "claim": "Concurrent API programs (Open blocking/background, Close, sends, UpdateConfigOptions valid/invalid, State, Metrics) from 1-5 goroutines at drawn offsets over 1-3 open/close cycles against peers that are absent, cooperative, silent, drop or flap, on HSMS-SS and SECS-I connections in both roles, in real time with small timers; every call is bounded, Close is bounded and idempotent, after Close no goroutine runs library code, every socket/listener handed to the library is closed, no dial/listen follows, State() is NotConnected; a re-Open reaches Selected, a second Open is refused with ErrAlreadyOpen without side effects (also while a reconnect is pending, which must still complete), and a round trip works.",
+        "trust": "Real time: bounds are upper bounds with seconds of slack and leak detectors poll for 2 s; handlers return (as the statement assumes).",
         "technique": "property-based testing (rapid): generated concurrent API programs x peer behaviours with leak detectors (goroutine dump, socket registry, dial log)",
         "tests": [
             {"name": "TestC10Lifecycle", "shards": 8, "shards_thorough": 16, "crash_is_violation": True},
         ],
-        "require": {"c10:cycles:1": 13, "c10:cycles:2": 13, "c10:cycles:3": 13, "c10:peer:absent": 17, "c10:peer:drop": 11, "c10:peer:flap": 9, "c10:peer:select": 32, "c10:peer:silent": 11, "c10:reopened": 57, "c10:role:active": 19, "c10:role:passive": 20},
+        "require": {"c10:cycles:1": 5, "c10:cycles:2": 8, "c10:cycles:3": 5, "c10:peer:absent": 8, "c10:peer:drop": 4, "c10:peer:flap": 6, "c10:peer:select": 30, "c10:peer:silent": 6, "c10:reopened": 58, "c10:role:active": 9, "c10:role:passive": 20, "c10:transport:hsmsss": 23, "c10:transport:secs1": 8},
     },
     "C11": {
         "level": "fault_enumeration",
